@@ -29,6 +29,7 @@ RULE = (
     ' Round 9: `session` events; `persistence_file=unwritable`; a refused id request that was owed an answer is reported.'
     ' Round 10: long stored values in the per-type sweep.'
     ' Round 11: environment sweep (see C03); zones with daylight saving rules asked in their summer and winter (DST_POINTS).'
+    ' Round 12: hidden-switch sweep (every internal type, then the whole tour in one history); pass under `python -O`; eager task factory.'
 )
 ASSUMPTIONS = [
     "time zones are fixed-offset POSIX TZ strings applied with time.tzset(); the handler module's `time` attribute is shimmed when present",
